@@ -12,6 +12,7 @@ import SlicecVerif.Lemmas.Request
 import SlicecVerif.Lemmas.RequestContent
 import SlicecVerif.Lemmas.RequestFromVal
 import SlicecVerif.Lemmas.RequestBridge
+import SlicecVerif.Lemmas.PipelineBridge
 
 namespace Slicec.C08
 
@@ -566,6 +567,67 @@ theorem content_faithful_decoded_of_accepted (fs : List ReqFile) (srcs refs : Li
       optMap fromValFile rs = some (describe .asDemanded fs false) :=
   content_faithful_decoded fs srcs refs bs args hc (compiled_files_resolve fs hacc hshape hdepth) he
 
+/-! ### acceptance by the COMPLETE pipeline (`validateFull`, Model/Pipeline.lean)
+
+`validate` lacks the parser's E017 for a base that is not a name and the alias gate of `detect_cycles`; that is why
+`compiled_programs_resolve_gate` asks for `ParserShaped` and `Cyc.aliasGateErrors P = []`. `validateFull` has both phases
+(tied to the compiler by the stream of C04), so acceptance by it gives both. What stays explicit: `ModulesNamed` (a module
+declaration with an empty path — expressible in the abstract syntax only, looked at by no phase) and `NestingSmall` (the
+descent constant of the converter MODEL; `C08Demo.deep_accepted_full`). -/
+
+/-- **The bridge from the complete verdict.** If the complete pipeline accepts `P` (`validateFull P = []`: every phase of the
+    front end, including the parser's shape check, the alias gate and the inheritance check), the module declarations of `P`
+    are named and its written types are syntactically small, then the guard `AllResolve` holds for the file list the driver
+    builds from `P`. -/
+theorem compiled_programs_resolve_full (pathOf : Nat → String) (refs : List Nat) (P : Program)
+    (hacc : validateFull P = []) (hmod : ModulesNamed P = true) (hsmall : NestingSmall P = true) :
+    AllResolve (reqFilesOf pathOf refs P) = true := by
+  apply allResolve_of_accepted_full <;> rw [programOf_reqFilesOf] <;> assumption
+
+/-- the same for any list of compiled files (any paths, any source/reference split, any order) -/
+theorem compiled_files_resolve_full (fs : List ReqFile) (hacc : validateFull (programOf fs) = [])
+    (hmod : ModulesNamed (programOf fs) = true) (hsmall : NestingSmall (programOf fs) = true) : AllResolve fs = true :=
+  allResolve_of_accepted_full fs hacc hmod hsmall
+
+/-- `ParserShaped` and the alias-gate hypothesis of `compiled_programs_resolve_gate` are consequences of acceptance by the
+    complete pipeline (given named modules), and so is acceptance by `validate` -/
+theorem accepted_full_gives_gate_hypotheses (P : Program) (hacc : validateFull P = []) (hmod : ModulesNamed P = true) :
+    validate P = [] ∧ Cyc.aliasGateErrors P = [] ∧ ParserShaped P = true := by
+  obtain ⟨hv, hs, hg, _⟩ := (Validate.validateFull_nil_iff P).mp hacc
+  exact ⟨hv, hg, parserShaped_of_shape P hmod hs⟩
+
+/-- `named_ids_exist` with "the program is accepted by the complete pipeline" in place of `AllResolve`. -/
+theorem named_ids_exist_of_accepted_full (mode : DocMode) (fs : List ReqFile) (srcs refs : List SliceFileV)
+    (h : convert mode fs = some (srcs, refs)) (hacc : validateFull (programOf fs) = [])
+    (hmod : ModulesNamed (programOf fs) = true) (hsmall : NestingSmall (programOf fs) = true) :
+    ∀ f ∈ srcs ++ refs, ∀ s ∈ f.contents,
+      (∀ r ∈ s.trefs, ∀ id, r.typeId = .named id →
+        (∃ p ∈ Prim.all, id = sb p.kw) ∨ EntityIn (srcs ++ refs) ["struct", "enum", "custom"] id) ∧
+      (∀ v, s = .interface v → ∀ b ∈ v.bases, EntityIn (srcs ++ refs) ["interface"] b) :=
+  named_ids_exist mode fs srcs refs h (compiled_files_resolve_full fs hacc hmod hsmall)
+
+/-- `resolved_links_exist` with acceptance by the complete pipeline — alone. -/
+theorem resolved_links_exist_of_accepted_full (fs : List ReqFile) (hacc : validateFull (programOf fs) = []) (selfKey id : String) :
+    (∀ n, findNodeWithScope (buildTable (programOf fs)) id selfKey = some n →
+      n.kind ≠ .module ∧ n.kind ≠ .parameter ∧ n.kind ≠ .primitive →
+      convLink (buildTable (programOf fs)) selfKey id = sb n.key ∧
+      ∃ rf ∈ transmitted fs, EntityOf rf.file n.key n.kind n.ident) ∧
+    ((findNodeWithScope (buildTable (programOf fs)) id selfKey = none ∨
+      ∃ n, findNodeWithScope (buildTable (programOf fs)) id selfKey = some n ∧
+        (n.kind = .module ∨ n.kind = .parameter ∨ n.kind = .primitive)) →
+      convLink (buildTable (programOf fs)) selfKey id = sb id) :=
+  resolved_links_exist_of_accepted fs ((Validate.validateFull_nil_iff _).mp hacc).1 selfKey id
+
+/-- `content_faithful_decoded` (bytes → decoded value → `describe P`) with acceptance by the complete pipeline. -/
+theorem content_faithful_decoded_of_accepted_full (fs : List ReqFile) (srcs refs : List SliceFileV) (bs args : Bytes)
+    (hc : convert DocMode.current fs = some (srcs, refs)) (hacc : validateFull (programOf fs) = [])
+    (hmod : ModulesNamed (programOf fs) = true) (hsmall : NestingSmall (programOf fs) = true)
+    (he : encodeRequest srcs refs = some bs) :
+    ∃ ss rs : List SVal, decodeCall CS "generateCode" 2 (bs ++ args) = .ok ([.list ss, .list rs], args) ∧
+      optMap fromValFile ss = some (describe .asDemanded fs true) ∧
+      optMap fromValFile rs = some (describe .asDemanded fs false) :=
+  content_faithful_decoded fs srcs refs bs args hc (compiled_files_resolve_full fs hacc hmod hsmall) he
+
 /-! ## non-vacuity -/
 
 /-- a request the encoder accepts, with an anonymous type, an optional tag and a comment (strings as byte literals) -/
@@ -707,6 +769,30 @@ example : (validate (programOf C08Demo.primBase) = [] ∧ DescentWithin (program
 example : enumValues none [⟨[], [], "P", none, none⟩, ⟨[], [], "Q", none, some ⟨false, 10, 5, false⟩⟩, ⟨[], [], "R", none, none⟩] =
     [0, 5, 6] := by decide
 
+/-! ### acceptance by the complete pipeline -/
+
+/-- the two-file program is accepted by the complete pipeline, its modules are named, it is syntactically small: the guard is
+    DERIVED — no shape hypothesis, no alias-gate hypothesis, no resolution-dependent hypothesis -/
+example : AllResolve C08Demo.files = true :=
+  compiled_files_resolve_full C08Demo.files C08Demo.demo_accepted_full C08Demo.demo_modules_named C08Demo.demo_small
+example : AllResolve (reqFilesOf (fun i => "f" ++ toString i ++ ".slice") [1] (programOf C08Demo.files)) = true :=
+  compiled_programs_resolve_full _ [1] _ C08Demo.demo_accepted_full C08Demo.demo_modules_named C08Demo.demo_small
+
+/-- the two programs that `validate` accepted and the compiler rejects are rejected by the complete pipeline with the
+    compiler's codes (E019, E017): they no longer need to be excluded by hand -/
+example : validateFull (programOf C08Demo.aliasLoop) = [Validate.code "SelfReferentialTypeAliasNeedsConcreteType"] ∧
+    validateFull (programOf C08Demo.primBase) = [Validate.code "TypeMismatch"] :=
+  ⟨C08Demo.aliasLoop_rejected_full, C08Demo.primBase_rejected_full⟩
+
+/-- **`ModulesNamed` is needed**: a module declaration without a name passes every phase — no source text can express it -/
+example : validateFull (programOf C08Demo.noName) = [] ∧ ModulesNamed (programOf C08Demo.noName) = false ∧
+    AllResolve C08Demo.noName = false := C08Demo.noName_accepted_full
+
+/-- **`NestingSmall` is needed**: 32 nested sequences are accepted by the complete pipeline (and the compiler); the converter
+    MODEL's descent constant is exceeded -/
+example : validateFull (programOf C08Demo.deep) = [] ∧ ModulesNamed (programOf C08Demo.deep) = true ∧
+    NestingSmall (programOf C08Demo.deep) = false ∧ AllResolve C08Demo.deep = false := C08Demo.deep_accepted_full
+
 end Slicec.C08
 
 #print axioms Slicec.C08.field_order_matches_schema
@@ -759,3 +845,9 @@ end Slicec.C08
 #print axioms Slicec.C08.accepted_descent_is_bounded
 #print axioms Slicec.C08.descent_bound_from_alias_gate
 #print axioms Slicec.C08.compiled_programs_resolve_gate
+#print axioms Slicec.C08.compiled_programs_resolve_full
+#print axioms Slicec.C08.compiled_files_resolve_full
+#print axioms Slicec.C08.accepted_full_gives_gate_hypotheses
+#print axioms Slicec.C08.named_ids_exist_of_accepted_full
+#print axioms Slicec.C08.resolved_links_exist_of_accepted_full
+#print axioms Slicec.C08.content_faithful_decoded_of_accepted_full
